@@ -254,6 +254,21 @@ class World:
             raise self.exc(r[1])
         raise ValueError(r)
 
+    @staticmethod
+    def sync_adapter(fn):
+        """a plain function that runs the coroutine function beneath it to completion (the body never suspends)"""
+        import functools
+
+        @functools.wraps(fn)
+        def adapter(*args, **kwargs):
+            coro = fn(*args, **kwargs)
+            try:
+                coro.send(None)
+            except StopIteration as stop:
+                return stop.value
+            raise RuntimeError("the adapted body suspended")
+        return adapter
+
     def body(self, env):
         self.events.append(["body", self.canon_kw(env), self.snap_store()])
         b = self.user["body"]
